@@ -94,6 +94,11 @@ def check(world, plans, results):
         seen = [norm(p) for p, acc, ok in cb_paths(res) if tree.is_fileish(norm(p))]
         if seen != model["consulted"]:
             v.fail("m5:consulted", "files handed to the callback %r differ from the model's consulted list %r" % (seen, model["consulted"]))
+    # processing order without callback: the order in which the files were opened
+    if not read.get("cb") and not model["nofile"] and r["rc"] == 0:
+        opened = [norm(e[3]) for e in res.get("events", []) if e[2] == "fopen_r" and e[4] == 0 and tree.is_fileish(norm(e[3]))]
+        if opened and opened != model["consulted"]:
+            v.fail("m5:consulted", "files were opened in the order %r, the model's consulted list is %r" % (opened, model["consulted"]))
     layers = set()
     for p in model["consulted"]:
         for l in gen.layers_of(read):
@@ -116,6 +121,8 @@ def check(world, plans, results):
         v.probe("nofile")
     if not read.get("suffix"):
         v.probe("no_suffix")
+    if read["ep"] == "readConfig" and not read["opts"].get("root_prefix") and not read["opts"].get("parsing_dirs"):
+        v.probe("default_layers_without_root_prefix")
     lay = gen.layers_of(read)
     if model["main"] and len(lay) >= 3 and model["main"].startswith(norm(lay[1]) + "/"):
         v.probe("main_in_middle_layer")
